@@ -245,6 +245,14 @@ func (t *Transaction) rowsFromTransactionCacheAndDatabase(table string, where []
 			rows[rowUUID] = txnRow
 			// delete txnRows so that only inserted rows remain in txnRows
 			delete(txnRows, rowUUID)
+		} else if t.Cache.Table(table).HasRow(rowUUID) {
+			// the transaction has its own version of this row and that
+			// version does not match the condition any more
+			delete(rows, rowUUID)
+		} else if _, deleted := t.DeletedRows[rowUUID]; deleted {
+			// deleted by this transaction: do not bring it back into
+			// the transaction cache
+			delete(rows, rowUUID)
 		} else {
 			// warm the transaction cache with the current contents of the row
 			if err := t.Cache.Table(table).Create(rowUUID, row, false); err != nil {
@@ -256,9 +264,12 @@ func (t *Transaction) rowsFromTransactionCacheAndDatabase(table string, where []
 	for rowUUID, row := range txnRows {
 		rows[rowUUID] = row
 	}
-	// exclude deleted rows
+	// exclude deleted rows, unless the transaction has inserted a row with
+	// the same UUID again
 	for rowUUID := range t.DeletedRows {
-		delete(rows, rowUUID)
+		if !t.Cache.Table(table).HasRow(rowUUID) {
+			delete(rows, rowUUID)
+		}
 	}
 	return rows, nil
 }
